@@ -83,25 +83,8 @@ def gen_cases(rng, n):
     return cases
 
 
-def _n(name, preds=(), **kw):
-    return {"name": name, "preds": list(preds), **kw}
-
-
-CORPUS = [
-    # diamond with a split middle node, limit 2, adversarial script (the non-vacuity example of Props/C15.lean)
-    {"nodes": [_n("a"), _n("b", ["a"], split=[0, 1]), _n("c", ["a"]), _n("d", ["b", "c"])], "keep_state": [], "k": 2, "fail": [],
-     "script": [{"acq": ["a"], "fin": ["a"], "done": ["a"]}, {"acq": ["b.1", "b.0"], "fin": ["b.1"], "done": ["b.1"]},
-                {"acq": ["c"], "fin": ["c", "b.0"], "done": ["c"]}, {"done": ["b.0"]}, {"acq": ["d"], "fin": ["d"], "done": ["d"]}]},
-    # two jobs with one checksum (split over equal values) and a successor: one body, futured de-duplication
-    {"nodes": [_n("a", split=[0, 0, 1]), _n("b", ["a"])], "keep_state": [], "k": None, "fail": [], "policy": {"seed": 1, "style": "lazy"}},
-    # inherited split
-    {"nodes": [_n("a", split=[0, 1]), _n("b", ["a"], inherit=True, combine_inherited=True), _n("c", ["b", "a"])], "keep_state": ["a"],
-     "k": 1, "fail": [], "policy": {"seed": 2, "style": "random"}},
-    # the `not_started` break: chain behind a slow root next to an independent chain
-    {"nodes": [_n("a"), _n("q"), _n("p", ["a"]), _n("r", ["q"]), _n("x", ["p"]), _n("y", ["r"])], "keep_state": [], "k": None, "fail": [],
-     "script": [{"acq": ["a", "q"], "fin": ["q"], "done": ["q"]}, {"acq": ["r"], "fin": ["r"], "done": ["r"]},
-                {"fin": ["a"], "done": ["a"]}, {"acq": ["p", "y"], "fin": ["p", "y"], "done": ["p", "y"]}, {"acq": ["x"], "fin": ["x"], "done": ["x"]}]},
-]
+# witnesses of repaired findings and hand-made schedules: corpus/sched/C15.jsonl
+CORPUS = sched.load_corpus("C15")
 
 
 def sync_cases(rng, n):
@@ -118,7 +101,7 @@ def sync_cases(rng, n):
 
 def judge_sync(ctx, cases):
     """debug worker: order in which bodies ran, and which body (if any) ended the submission"""
-    obs = sched.run_cases_parallel(cases, ctx.scratch, ctx.pick(6, 8))
+    obs = sched.run_cases_parallel(cases, ctx.scratch, ctx.pick(4, 6))
     qs = []
     for c in cases:
         mc = sched.model_case(c)
